@@ -1,3 +1,103 @@
-use crate::run::{Ctx, Ev};
+//! C04 - closing pays exactly the position's equity; bad debt cannot be cashed out.
+use serde_json::json;
+
+use super::engine_refs::*;
+use crate::refmodel::*;
+use crate::run::{pq_field_i, Ctx, Ev};
+use crate::types::*;
 use crate::world::World;
-pub fn step(_ctx: &Ctx, _w: &World, _ev: &mut Ev) {}
+
+pub fn step(ctx: &Ctx, w: &World, ev: &mut Ev) {
+    if w.cfg.kind != WorldKind::Standard || !ctx.out.ok {
+        return;
+    }
+    let actor = w.resolve(&ctx.step.actor);
+    let d = w.d;
+    let kind = ctx.step.op.kind();
+    let (eng, ifund) = (w.addrs.engine.clone(), w.addrs.insurance_fund.clone());
+    // third clause: a trader-initiated action never lowers the insurance fund by more than the newly recorded prepaid bad debt
+    if matches!(ctx.step.op, Op::Open { .. } | Op::Close { .. } | Op::Deposit { .. } | Op::Withdraw { .. }) {
+        if let (Some(a), Some(b)) = (&ctx.pre.eng, &ctx.post.eng) {
+            let drop = -ctx.delta(&ifund);
+            let dbd = b.bad_debt as i128 - a.bad_debt as i128;
+            if drop > 0 {
+                ev.count("insurance_fund_drawn_by_trader_action");
+                ev.eval(true, &("if_draw", kind, dbd > 0), || json!({"op": kind, "insurance_fund_drop": drop.to_string(), "prepaid_bad_debt_delta": dbd.to_string()}));
+            }
+            if drop > 0 && drop > dbd {
+                ev.violation("if_drawdown_le_prepaid", kind, json!({"insurance_fund_drop": drop.to_string(), "prepaid_bad_debt_delta": dbd.to_string()}));
+            }
+        }
+    }
+    let v = match &ctx.step.op {
+        Op::Close { vamm, .. } => *vamm,
+        _ => return,
+    };
+    let pos = match ctx.pre.position(v, &actor) {
+        Some(p) if p.size != 0 => p.clone(),
+        _ => return,
+    };
+    let f = match owed(ctx.pre, v, &actor, d) {
+        Some(f) => f,
+        None => {
+            ev.count("ref_overflow_skipped");
+            return;
+        }
+    };
+    let q = quote_moved(ctx, v);
+    let moved = ctx.post.vamms[v].size - ctx.pre.vamms[v].size;
+    let whole = moved == -pos.size;
+    let side = if pos.size > 0 { "long" } else { "short" };
+    let vault_short = ctx.sent(&ifund, &eng) > 0;
+    if whole {
+        let realised = match pnl(pos.dir, q, pos.notional) {
+            Some(x) => x,
+            None => return,
+        };
+        let e = pos.margin as i128 + realised - f;
+        let paid = ctx.sent(&eng, &actor);
+        let fees_on = ctx.pre.vamms[v].toll > 0 || ctx.pre.vamms[v].spread > 0;
+        ev.eval(realised != 0 || f != 0 || vault_short, &("whole", side, sign(realised), sign(f), vault_short, fees_on), || {
+            json!({"close": "whole", "side": side, "margin": pos.margin.to_string(), "open_notional": pos.notional.to_string(), "quote_exchanged": q.to_string(), "funding_owed": f.to_string(), "equity": e.to_string(), "paid": paid.to_string(), "vault_short": vault_short})
+        });
+        if vault_short {
+            ev.count("close_with_vault_shortfall");
+        }
+        if f != 0 {
+            ev.count("close_with_pending_funding");
+        }
+        if ctx.post.position(v, &actor).map(|p| p.size != 0).unwrap_or(false) {
+            ev.violation("position_gone", side, json!({"post": format!("{:?}", ctx.post.position(v, &actor))}));
+        }
+        if e < 0 {
+            ev.violation("bad_debt_rejected", &format!("whole,{}", side), json!({"equity": e.to_string()}));
+        } else if paid as i128 != e {
+            let diff = paid as i128 - e;
+            let shape = if diff == f { "diff_eq_funding" } else if diff == -f { "diff_eq_minus_funding" } else { "other" };
+            ev.violation(
+                "payout_exact",
+                &format!("{},funding_{},pnl_{},{}", side, sign(f), sign(realised), shape),
+                json!({"paid": paid.to_string(), "equity": e.to_string(), "margin": pos.margin.to_string(), "realised_pnl": realised.to_string(), "funding_owed": f.to_string()}),
+            );
+        }
+    } else {
+        // partial close: the bad-debt rule only
+        let b = base_moved(ctx, v);
+        let spot_pnl = match pq_field_i(ctx.preq, "pnl_spot", "unrealized_pnl") {
+            Some(x) => x,
+            None => return,
+        };
+        let r = match smul_div(spot_pnl, b as i128, pos.size.abs()) {
+            Some(x) => x,
+            None => return,
+        };
+        let e = pos.margin as i128 + r - f;
+        ev.eval(true, &("partial", side, sign(r), sign(f), vault_short, false), || {
+            json!({"close": "partial", "side": side, "base_closed": b.to_string(), "realised": r.to_string(), "funding_owed": f.to_string(), "margin": pos.margin.to_string()})
+        });
+        ev.count("partial_close");
+        if e < 0 {
+            ev.violation("bad_debt_rejected", &format!("partial,{}", side), json!({"margin_after": e.to_string()}));
+        }
+    }
+}
